@@ -18,6 +18,7 @@
 #include <typeinfo>
 #include <cxxabi.h>
 #include <map>
+#include <cmath>
 
 using namespace FIX8;
 extern "C" const F8MetaCntx& C13S_ctx();
@@ -225,7 +226,7 @@ static std::string dump_tables(const F8MetaCntx& ctx, unsigned ncomps)
 				else if (FieldTrait::is_char(rb._ftype))
 					os << 'c' << static_cast<unsigned>(static_cast<unsigned char>(rb.get_rlm_val<char>(ii)));
 				else if (FieldTrait::is_float(rb._ftype))
-					os << 'd' << rb.get_rlm_val<fp_type>(ii);
+					os << 'd' << static_cast<long long>(llround(static_cast<double>(rb.get_rlm_val<fp_type>(ii)) * 10000.0));	// value * 10^4
 				else
 					os << 'x' << tohex(rb.get_rlm_val<f8String>(ii));
 				os << '=' << tohex(rb._descriptions[ii] ? rb._descriptions[ii] : "");
